@@ -344,10 +344,17 @@ class _rewrite_captured_vars(ast.NodeTransformer):
         return node
 
     def visit_Lambda(self, node: ast.Lambda) -> Any:
-        self._ignore_stack.append([a.arg for a in node.args.args])
-        v = super().generic_visit(node)
+        a = node.args
+        # Default values are evaluated in the scope that encloses the lambda
+        a.defaults = [self.visit(d) for d in a.defaults]
+        a.kw_defaults = [self.visit(d) if d is not None else None for d in a.kw_defaults]
+        # Every kind of parameter is a local name of the lambda
+        names = [p.arg for p in a.posonlyargs + a.args + a.kwonlyargs]
+        names += [p.arg for p in (a.vararg, a.kwarg) if p is not None]
+        self._ignore_stack.append(names)
+        node.body = self.visit(node.body)
         self._ignore_stack.pop()
-        return v
+        return node
 
     def _visit_comprehension(self, node: ast.AST) -> Any:
         "The targets of a comprehension are local names - never captured variables"
@@ -357,9 +364,13 @@ class _rewrite_captured_vars(ast.NodeTransformer):
             for n in ast.walk(g.target)
             if isinstance(n, ast.Name)
         ]
+        # The iterable of the first `for` is evaluated in the enclosing scope
+        first_iter = self.visit(node.generators[0].iter)  # type: ignore
+        node.generators[0].iter = ast.Constant(value=None)  # type: ignore
         self._ignore_stack.append(targets)
         v = super().generic_visit(node)
         self._ignore_stack.pop()
+        v.generators[0].iter = first_iter  # type: ignore
         return v
 
     visit_ListComp = _visit_comprehension
